@@ -157,6 +157,15 @@ pub fn quad_battery<Q: QuadApi>(rep: &mut Rep, q: &Q, m: &QuadModel, rng: &mut R
             }
         }
     }
+    // interleaved histories: consecutive occurrence indices, alternating symbols
+    let lim = (0..4).map(|s| m.occs(s)).min().unwrap_or(0).min((o.budget / 16).max(16));
+    for k in 0..lim {
+        for s in [(k % 4) as u8, ((k + 1) % 4) as u8] {
+            chk!(rep, "select[interleaved]", (s, k), Exp::Is(m.select(s, k)), q.select_(s, k));
+            let p = m.select(s, k).unwrap();
+            chk!(rep, "rank[interleaved]", (s, p), Exp::Is(Some(k)), q.rank_(s, p));
+        }
+    }
     // occs / occs_smaller
     for s in 0u8..4 {
         let got = chk!(rep, "occs", s, Exp::Is(Some(m.occs(s))), q.occs_(s));
@@ -329,6 +338,15 @@ pub fn bin_battery<B: BinApi>(rep: &mut Rep, b: &B, m: &BitModel, rng: &mut Rng,
             }
         }
     }
+    // interleaved histories over consecutive indices
+    let lim = n1.min(n0).min((o.budget / 8).max(32));
+    let start = if lim > 0 { rng.usize_below(lim) / 2 } else { 0 };
+    for k in start..lim {
+        chk!(rep, "select1[interleaved]", k, Exp::Is(Some(m.ones[k])), b.select1_(k));
+        chk!(rep, "select0[interleaved]", k, Exp::Is(Some(m.zeros[k])), b.select0_(k));
+        let p = m.ones[k];
+        chk!(rep, "rank1[interleaved]", p, Exp::Is(Some(k)), b.rank1_(p));
+    }
     rep.gate_max("max_n", n as u64);
     rep.gate_max("max_ones", n1 as u64);
     rep.gate_max("max_zeros", n0 as u64);
@@ -468,6 +486,32 @@ pub fn darray_battery<const S0: bool>(rep: &mut Rep, d: &DArray<S0>, m: &BitMode
             for k in [n0, n0 + 1, n0 + 1024, usize::MAX, usize::MAX - 1, 1 << 63] {
                 chk!(rep, "select0", k, Exp::Is(None), d.select0(k));
             }
+        }
+    }
+    // interleaved histories: consecutive occurrence indices alternating between the two kinds of
+    // query (and back and forth), as a cursor or memo inside the structure would see them
+    if S0 {
+        let lim = n1.min(n0).min(o.budget.max(64));
+        let start = if lim > 0 { rng.usize_below(lim) / 2 } else { 0 };
+        for k in start..lim {
+            if k % 2 == 0 {
+                chk!(rep, "select1[interleaved]", k, Exp::Is(Some(m.ones[k])), d.select1(k));
+            } else {
+                chk!(rep, "select0[interleaved]", k, Exp::Is(Some(m.zeros[k])), d.select0(k));
+            }
+        }
+        for k in 0..lim.min(200) {
+            chk!(rep, "select1[interleaved]", k, Exp::Is(Some(m.ones[k])), d.select1(k));
+            chk!(rep, "select0[interleaved]", k, Exp::Is(Some(m.zeros[k])), d.select0(k));
+            if k + 1 < lim {
+                chk!(rep, "select0[interleaved]", k + 1, Exp::Is(Some(m.zeros[k + 1])), d.select0(k + 1));
+                chk!(rep, "select1[interleaved]", k + 1, Exp::Is(Some(m.ones[k + 1])), d.select1(k + 1));
+            }
+        }
+    } else {
+        let lim = n1.min(o.budget.max(64));
+        for k in (0..lim).rev().take(300) {
+            chk!(rep, "select1[descending]", k, Exp::Is(Some(m.ones[k])), d.select1(k));
         }
     }
     // iterators
